@@ -15,6 +15,7 @@ C01). Helper lemmas: BHS/Proofs/Query{Sort,Lc,Page}.lean.
 import BHS.Model.Query
 import BHS.Spec.BestChain
 import BHS.Proofs.QueryPage
+import BHS.Props.C01
 
 set_option linter.unusedSectionVars false
 
@@ -244,5 +245,68 @@ example : page exStore 2 none =
     walk exStore' 2 (exStore'.length + 1) (some 2) =
       some [exRow 3 4 3 3 2 12885098499 .lc, exRow 6 7 4 6 3 17180131332 .lc, exRow 7 8 7 7 4 21475164165 .lc] := by
   decide
+
+/-! ### for every store reachable by ingestion
+The theorems above restated for `run cfg [g] hist` — the store after ANY ingestion history (reorganisations, stale
+blocks, orphans, duplicates, forbidden and zero-work headers) from a root row `g`; the chain invariant comes from
+`C01_canonical`, so no `Inv` hypothesis is left. `DistinctRoots` of the reached store stays: it is the property's
+own hypothesis about the submitted headers (the page key is a merkle root). -/
+section Reachable
+open BHS.Props.C01 (IsRoot HashAvoids C01_canonical)
+
+theorem C08_walk_reachable (cfg : Cfg H) (g : Row H) (hg : IsRoot g) (hz : HashAvoids cfg g.prev)
+    (hist : List (Src H)) (n : Nat) (hm : DistinctRoots (run cfg [g] hist)) (hn : 1 ≤ n) :
+    walk (run cfg [g] hist) n ((run cfg [g] hist).length + 1) none = some (lcAsc (run cfg [g] hist)) :=
+  C08_walk cfg _ n (C01_canonical cfg g hg hz hist).1 hm hn
+
+theorem C08_lcAsc_is_chain_reachable (cfg : Cfg H) (g : Row H) (hg : IsRoot g) (hz : HashAvoids cfg g.prev)
+    (hist : List (Src H)) (t : Row H) (htip : getTip (run cfg [g] hist) = some t) :
+    (lcAsc (run cfg [g] hist)).Perm ((run cfg [g] hist).filter (fun r => decide (r.st = .lc))) ∧
+    (∀ r, r ∈ lcAsc (run cfg [g] hist) ↔ r ∈ chainTo (run cfg [g] hist) t) ∧
+    (lcAsc (run cfg [g] hist)).map (·.height) = List.range (t.height + 1) ∧
+    (lcAsc (run cfg [g] hist)).getLast? = some t :=
+  C08_lcAsc_is_chain cfg _ t (C01_canonical cfg g hg hz hist).1 htip
+
+theorem C08_bad_key_reachable (cfg : Cfg H) (g : Row H) (hist : List (Src H)) (n : Nat) :
+    (∀ k, (∀ r ∈ run cfg [g] hist, r.merkle ≠ k) → page (run cfg [g] hist) n (some k) = .error .notFound) ∧
+    (DistinctRoots (run cfg [g] hist) → ∀ r ∈ run cfg [g] hist, r.st ≠ .lc →
+      page (run cfg [g] hist) n (some r.merkle) = .error .notLc) :=
+  C08_bad_key _ n
+
+theorem C08_zero_reachable (cfg : Cfg H) (g : Row H) (hg : IsRoot g) (hz : HashAvoids cfg g.prev)
+    (hist : List (Src H)) (key : Option H) (hv : ∃ ht, lastEvalHeight (run cfg [g] hist) key = .ok ht) :
+    page (run cfg [g] hist) 0 key = .ok ([], none) :=
+  C08_zero cfg _ key (C01_canonical cfg g hg hz hist).1 hv
+
+/-- a walk interleaved with further ingestion (`more` is submitted while the client holds the key of the `i`-th row
+    of the old longest chain) -/
+theorem C08_interleaved_reachable (cfg : Cfg H) (g : Row H) (hg : IsRoot g) (hz : HashAvoids cfg g.prev)
+    (hist more : List (Src H)) (ext : List (Row H)) (n i : Nat)
+    (hm' : DistinctRoots (run cfg [g] (hist ++ more)))
+    (happ : lcAsc (run cfg [g] (hist ++ more)) = lcAsc (run cfg [g] hist) ++ ext)
+    (hi : i < (lcAsc (run cfg [g] hist)).length) :
+    (∃ k', page (run cfg [g] (hist ++ more)) n (some (lcAsc (run cfg [g] hist))[i].merkle) =
+      .ok (((lcAsc (run cfg [g] (hist ++ more))).drop (i + 1)).take n, k')) ∧
+    (1 ≤ n → walk (run cfg [g] (hist ++ more)) n ((run cfg [g] (hist ++ more)).length + 1)
+      (some (lcAsc (run cfg [g] hist))[i].merkle) = some ((lcAsc (run cfg [g] (hist ++ more))).drop (i + 1))) ∧
+    (lcAsc (run cfg [g] (hist ++ more))).take (i + 1) = (lcAsc (run cfg [g] hist)).take (i + 1) :=
+  C08_interleaved cfg _ _ ext n i (C01_canonical cfg g hg hz (hist ++ more)).1 hm' happ hi
+
+/-- non-vacuity on the history of C01 (fork, tie, reorganisation, orphan; merkle roots 0 … 5): the walk with page
+    size 2 returns the three longest-chain rows; then two more headers extend the tip while the client holds key 2 -/
+example : IsRoot C01.exRoot ∧ HashAvoids C01.exCfg C01.exRoot.prev ∧
+    DistinctRoots (run C01.exCfg [C01.exRoot] C01.exHist) ∧
+    (lcAsc (run C01.exCfg [C01.exRoot] C01.exHist)).map (·.hash) = [1000, 3, 4] ∧
+    walk (run C01.exCfg [C01.exRoot] C01.exHist) 2 ((run C01.exCfg [C01.exRoot] C01.exHist).length + 1) none =
+      some (lcAsc (run C01.exCfg [C01.exRoot] C01.exHist)) :=
+  ⟨by decide, C01.exAvoids, by decide, by decide,
+    C08_walk_reachable C01.exCfg C01.exRoot (by decide) C01.exAvoids C01.exHist 2 (by decide) (by decide)⟩
+
+example : DistinctRoots (run C01.exCfg [C01.exRoot] (C01.exHist ++ [C01.exSrc 4 6, C01.exSrc 7 7])) ∧
+    (∃ ext, ext.length = 2 ∧ lcAsc (run C01.exCfg [C01.exRoot] (C01.exHist ++ [C01.exSrc 4 6, C01.exSrc 7 7])) =
+      lcAsc (run C01.exCfg [C01.exRoot] C01.exHist) ++ ext) ∧
+    1 < (lcAsc (run C01.exCfg [C01.exRoot] C01.exHist)).length := by decide
+
+end Reachable
 
 end BHS.Props.C08
